@@ -108,6 +108,82 @@ fn branch_of(client: bool, kind: &str, body: &str) -> Result<&'static str, Strin
     Ok(b)
 }
 
+
+/// libp2p-kad's `K_VALUE` (version from Cargo.lock, source from the cargo registry)
+fn k_value(repo: &PathBuf) -> Result<u128, String> {
+    let lock = std::fs::read_to_string(repo.join("Cargo.lock")).map_err(|e| format!("Cargo.lock: {e}"))?;
+    let mut ver = None;
+    let mut lines = lock.lines();
+    while let Some(l) = lines.next() {
+        if l.trim() == "name = \"libp2p-kad\"" {
+            if let Some(v) = lines.next() {
+                ver = v.trim().strip_prefix("version = \"").and_then(|s| s.strip_suffix('"')).map(|s| s.to_string());
+            }
+            break;
+        }
+    }
+    let ver = ver.ok_or("libp2p-kad not found in Cargo.lock")?;
+    let home = std::env::var("CARGO_HOME").unwrap_or_else(|_| format!("{}/.cargo", std::env::var("HOME").unwrap_or_else(|_| "/root".into())));
+    let src = PathBuf::from(home).join("registry/src");
+    let mut found = None;
+    for d in std::fs::read_dir(&src).map_err(|e| format!("{}: {e}", src.display()))? {
+        let p = d.map_err(|e| e.to_string())?.path().join(format!("libp2p-kad-{ver}/src/lib.rs"));
+        if p.exists() {
+            found = Some(p);
+        }
+    }
+    let p = found.ok_or(format!("libp2p-kad-{ver}/src/lib.rs not found in the cargo registry"))?;
+    let file = parse_file(&p)?;
+    for (n, e) in consts(&file) {
+        if n == "K_VALUE" {
+            struct Lits(Vec<u128>);
+            impl<'ast> syn::visit::Visit<'ast> for Lits {
+                fn visit_lit_int(&mut self, i: &'ast syn::LitInt) {
+                    if let Ok(x) = i.base10_parse::<u128>() {
+                        self.0.push(x);
+                    }
+                }
+            }
+            let mut l = Lits(vec![]);
+            syn::visit::Visit::visit_expr(&mut l, &e);
+            if l.0.len() == 1 {
+                return Ok(l.0[0]);
+            }
+            return Err(format!("K_VALUE: expected exactly one integer literal in `{}`", toks(&e)));
+        }
+    }
+    Err("K_VALUE not found in libp2p-kad".into())
+}
+
+/// in `verify_for`: the `match encoded_peer_id.to_peer_id()` must leave the function with `false` in every
+/// arm that is not `Ok(..)` (an undecodable claimed id cannot be signature-checked, so the proof is refused)
+fn undecodable_id_refused(f: &syn::ImplItemFn) -> bool {
+    struct Find {
+        seen: bool,
+        ok: bool,
+    }
+    impl<'ast> syn::visit::Visit<'ast> for Find {
+        fn visit_expr_match(&mut self, m: &'ast syn::ExprMatch) {
+            if toks(&m.expr).contains("to_peer_id") {
+                self.seen = true;
+                for a in &m.arms {
+                    let pat = toks(&a.pat);
+                    if pat.starts_with("Ok") {
+                        continue;
+                    }
+                    if !toks(&a.body).contains("return false") {
+                        self.ok = false;
+                    }
+                }
+            }
+            syn::visit::visit_expr_match(self, m);
+        }
+    }
+    let mut fnd = Find { seen: false, ok: true };
+    syn::visit::Visit::visit_block(&mut fnd, &f.block);
+    fnd.seen && fnd.ok
+}
+
 fn first_pos(body: &str, needles: &[&str]) -> Option<usize> {
     needles.iter().filter_map(|n| body.find(n)).min()
 }
@@ -120,7 +196,7 @@ pub fn generate(repo: &PathBuf) -> Result<String, String> {
     let carms = arms(client)?;
     let rarms = arms(repl)?;
 
-    let mut s = header("ant-node/src/put_validation.rs, ant-evm/src/data_payments.rs, evmlib/src/contract/payment_vault/mod.rs, ant-networking/src/record_store.rs");
+    let mut s = header("ant-node/src/put_validation.rs, ant-evm/src/data_payments.rs, evmlib/src/contract/payment_vault/mod.rs, ant-networking/src/record_store.rs, ant-networking/src/driver.rs, ant-networking/src/cmd.rs");
     s.push_str("namespace SafeNet.Gen.Validate\n");
     s.push_str("/-- `RecordKind` -/\ninductive Kind | chunkp | chunk | padp | pad | txp | tx | regp | reg\nderiving DecidableEq, Repr\n");
     s.push_str("/-- shapes of the match arms of the two routing functions -/\ninductive Branch | chunkPaid | rejectUnpaid | padPaid | padUpdate | txPaid | regUpdate | regPaid | rejectPaid | chunkRepl | padRepl | txRepl | regRepl\nderiving DecidableEq, Repr\n");
@@ -231,8 +307,31 @@ pub fn generate(repo: &PathBuf) -> Result<String, String> {
     };
     let pe = toks(&impl_fn(&dp, "ProofOfPayment", None, "has_expired")?.block);
     let proof_any_expired = has(&pe, ". any (");
-    let vf = toks(&impl_fn(&dp, "ProofOfPayment", None, "verify_for")?.block);
-    let verify_for_checks = has(&vf, "! self . payees () . contains (& peer_id)") && has(&vf, "check_is_signed_by_claimed_peer");
+    let vf_fn = impl_fn(&dp, "ProofOfPayment", None, "verify_for")?;
+    let vf = toks(&vf_fn.block);
+    let verify_for_checks = has(&vf, "! self . payees () . contains (& peer_id)")
+        && has(&vf, "if ! quote . check_is_signed_by_claimed_peer (peer_id) { return false ; }")
+        && undecodable_id_refused(vf_fn);
+
+    // ant-networking: the close set served to `GetClosestKLocalPeers`
+    let kv = k_value(repo)?;
+    let drv = parse_file(&repo.join("ant-networking/src/driver.rs"))?;
+    let ck = toks(&impl_fn(&drv, "SwarmDriver", None, "get_closest_k_value_local_peers")?.block).replace(' ', "");
+    if !ck.contains("get_closest_local_peers(&self_peer_id)") {
+        return Err("get_closest_k_value_local_peers: peers no longer come from kademlia.get_closest_local_peers(self)".into());
+    }
+    let close_cut_after_chain = if ck.contains("std::iter::once(self.self_peer_id).chain(peers).take(K_VALUE.get()).collect()") {
+        true
+    } else if ck.contains("std::iter::once(self.self_peer_id).chain(peers.take(K_VALUE.get())).collect()") {
+        false
+    } else {
+        return Err("get_closest_k_value_local_peers: neither `once(self).chain(peers).take(K)` nor `once(self).chain(peers.take(K))`".into());
+    };
+    let cmdf = parse_file(&repo.join("ant-networking/src/cmd.rs"))?;
+    let hl = toks(&impl_fn(&cmdf, "SwarmDriver", None, "handle_local_cmd")?.block).replace(' ', "");
+    if !hl.contains("LocalSwarmCmd::GetClosestKLocalPeers{sender}=>{cmd_string=\"GetClosestKLocalPeers\";let_=sender.send(self.get_closest_k_value_local_peers());}") {
+        return Err("handle_local_cmd: GetClosestKLocalPeers no longer answered with get_closest_k_value_local_peers()".into());
+    }
 
     // ant-networking RecordStore::put
     let rsf = parse_file(&repo.join("ant-networking/src/record_store.rs"))?;
@@ -299,6 +398,8 @@ pub fn generate(repo: &PathBuf) -> Result<String, String> {
     flag("storePutRefusesAtLimit", "`RecordStore::put`: `len >= max_value_bytes` ⇒ ValueTooLarge (true: `>=`)", put_refuses_at_limit);
     flag("storePutNeverStores", "`RecordStore::put` touches neither the index nor the cache nor the disk", put_never_stores);
     flag("storePutSilentOnBadHeader", "`RecordStore::put` returns Ok without an event when the header does not parse", put_header_err_silent);
+    flag("closeCutAfterChain", "`get_closest_k_value_local_peers` = `once(self).chain(peers).take(K_VALUE)` (true) or `once(self).chain(peers.take(K_VALUE))` (false)", close_cut_after_chain);
+    s.push_str(&format!("/-- libp2p-kad `K_VALUE` -/\ndef kValue : Nat := {kv}\n"));
     s.push_str(&format!("/-- `QUOTE_EXPIRATION_SECS` -/\ndef quoteExpirationSecs : Nat := {exp_secs}\n"));
     s.push_str(&format!(
         "/-- kinds `RecordStore::put` forwards to validation even when the key is already held -/\ndef storePutAlwaysForwards : List Kind := [{}]\n",
